@@ -36,7 +36,11 @@ structure Mag (V : Type) where
 
 variable {V : Type} [Add V] [Sub V] [Mul V] [Div V] [Neg V] [OfNat V 100] [ValOps V]
 
-/-- `Magnitude(value, abse)` : the constructor (float / array branch). -/
+/-- `Magnitude(value, abse)` : the constructor (float / array branch). Every admissible input —
+    int, float, list, ndarray of any numeric dtype, numpy scalar — is cast to float
+    (`float(value)`, `np.array(value, dtype=float)`, `value.astype(float)`: always a fresh float
+    array), so values enter the model as elements of `V`; integer arithmetic and views of the
+    caller's array do not exist in the model, and the correspondence checks exactly that. -/
 def Mag.new (value : V) (error : Option V) : Mag V :=
   ⟨value, error.map (fillLike value)⟩
 
